@@ -102,7 +102,8 @@ def is_unextendible_product_basis(vecs: list[np.ndarray], dims: list[int]) -> tu
                 # For the i-th party, acquire the matrix.
                 mat = np.stack([vecs_split[col][i] for col in part_ordered[i]])
                 # Find the basis of the null space.
-                null_basis = null_space(mat)
+                # A witness must satisfy <v|w> = 0, i.e. it lies in the null space of the conjugated rows.
+                null_basis = null_space(mat.conj())
                 # If null space is empty then break.
                 if null_basis.shape[1] == 0:
                     witness_found = False
